@@ -569,7 +569,7 @@ class C19(flow.Spec):
         self._nontriv = getattr(self, "_nontriv", set())
         if round_no == 0:
             cs += exhaustive_small(tier)
-        n = 6000 if tier == "quick" else 60000
+        n = 6000 if tier == "quick" else 150000
         for i in range(n):
             lines, nt = gen_case(rng, f"r{round_no}.{i}", rng.choice([20, 30, 40]))
             if nt:
